@@ -36,6 +36,7 @@ type Engine struct {
 	verif    string
 	loadSecs float64
 	notes    []string
+	curTParams map[string]types.Type // type parameters of the (generic) function under verification
 }
 
 const modPath = "github.com/temporalio/s2s-proxy"
@@ -256,6 +257,17 @@ func (eng *Engine) verifyFunction(p *Pkg, key string, ct *Contract) (res *FuncRe
 		loopOrd: map[ast.Stmt]int{}, boxed: map[types.Object]bool{}, occ: map[string]map[token.Pos]int{}, info: p.TypesInfo,
 		paramsEntry: map[string]Val{}, isClosure: isClosure}
 	res.SMT = fc.smt
+	eng.curTParams = map[string]types.Type{}
+	if tps := sig.TypeParams(); tps != nil {
+		for i := 0; i < tps.Len(); i++ {
+			eng.curTParams[tps.At(i).Obj().Name()] = tps.At(i)
+		}
+	}
+	if rtp := sig.RecvTypeParams(); rtp != nil {
+		for i := 0; i < rtp.Len(); i++ {
+			eng.curTParams[rtp.At(i).Obj().Name()] = rtp.At(i)
+		}
+	}
 	defer func() {
 		res.Obls = fc.obls
 		res.Warnings = fc.warnings
@@ -469,7 +481,7 @@ func (fc *FnCtx) checkPost(st *State, vals []Val, panicked bool) {
 			}
 		}
 	}
-	env := &SpecEnv{fc: fc, st: st, old: fc.entry, scope: scope, oldScope: fc.paramsEntry, pkg: fc.pkg}
+	env := &SpecEnv{fc: fc, st: st, old: fc.entry, scope: scope, oldScope: fc.paramsEntry, pkg: fc.pkg, useVars: true}
 	for i, en := range ct.Ensures {
 		v := fc.safeSpec(env, en.E, en.Text)
 		fc.assertNamed(st, "post", clauseName(en, i), v.T, "postcondition: "+en.Text, pos)
@@ -635,7 +647,88 @@ func (fc *FnCtx) assumeFrame(st *State) {
 	}
 }
 
+// seqFns: an iterator value (iter.Seq / iter.Seq2) is modelled as an abstract finite sequence
+//   seqlen(it) >= 0, seqkey(it, i), seqval(it, i)
+func (fc *FnCtx) seqFns(kt, vt types.Type) (ln, key, val string) {
+	ks := fc.smt.sortOf(kt)
+	ln = "seqlen"
+	fc.smt.declare(ln, "(declare-fun seqlen (Int) Int)")
+	fc.smt.axiom("(forall ((it Int)) (! (>= (seqlen it) 0) :pattern ((seqlen it))))")
+	key = "seqkey_" + sanitize(ks)
+	fc.smt.declare(key, fmt.Sprintf("(declare-fun %s (Int Int) %s)", key, ks))
+	if vt != nil {
+		vs := fc.smt.sortOf(vt)
+		val = "seqval_" + sanitize(vs)
+		fc.smt.declare(val, fmt.Sprintf("(declare-fun %s (Int Int) %s)", val, vs))
+	}
+	return
+}
+
+// execRangeFunc: range over an iterator function value: the body runs for i = 0 .. seqlen(it)-1 with
+// (key, val) = (seqkey(it,i), seqval(it,i)); invariants may use $i, $len.
 func (fc *FnCtx) execRangeFunc(st *State, s *ast.RangeStmt, label string) []Outcome {
-	fc.unsupp(s.Pos(), "range over function iterator")
-	return nil
+	n := fc.loopNumber(s)
+	sig, _ := fc.typeOf(s.X).Underlying().(*types.Signature)
+	if sig == nil || sig.Params().Len() != 1 {
+		fc.unsupp(s.Pos(), "range over this function type")
+	}
+	ysig, _ := sig.Params().At(0).Type().Underlying().(*types.Signature)
+	if ysig == nil || ysig.Params().Len() < 1 || ysig.Params().Len() > 2 {
+		fc.unsupp(s.Pos(), "range over this function type")
+	}
+	kt := ysig.Params().At(0).Type()
+	var vt types.Type
+	if ysig.Params().Len() == 2 {
+		vt = ysig.Params().At(1).Type()
+	}
+	it := fc.eval(st, s.X)
+	lnF, keyF, valF := fc.seqFns(kt, vt)
+	ln := "(" + lnF + " " + it.T + ")"
+	var keyObj, valObj types.Object
+	if id, ok := s.Key.(*ast.Ident); ok && id.Name != "_" {
+		if keyObj = fc.info.Defs[id]; keyObj == nil {
+			keyObj = fc.info.Uses[id]
+		}
+	}
+	if id, ok := s.Value.(*ast.Ident); ok && id.Name != "_" {
+		if valObj = fc.info.Defs[id]; valObj == nil {
+			valObj = fc.info.Uses[id]
+		}
+	}
+	extra := func(i string) map[string]Val { return map[string]Val{"$i": {i, intT}, "$len": {ln, intT}} }
+	fc.checkInvs(st, n, "init", extra("0"), s.Pos())
+	h := st.clone()
+	fc.havocLoop(h, s.Body, nil)
+	i := fc.smt.fresh("ri", "Int")
+	h.assume(fmt.Sprintf("(and (<= 0 %s) (<= %s %s))", i, i, ln))
+	fc.assumeInvs(h, n, extra(i))
+	body := h.clone()
+	body.assume("(< " + i + " " + ln + ")")
+	if keyObj != nil {
+		kv := Val{"(" + keyF + " " + it.T + " " + i + ")", keyObj.Type()}
+		fc.assumeTyped(body, kv)
+		body.vars[keyObj] = kv
+	}
+	if valObj != nil && vt != nil {
+		vv := Val{"(" + valF + " " + it.T + " " + i + ")", valObj.Type()}
+		fc.assumeTyped(body, vv)
+		body.vars[valObj] = vv
+	}
+	outs := fc.execBlock(body, s.Body.List)
+	cont, brk, rest := fc.loopCtl(outs, label)
+	for _, c := range cont {
+		fc.checkInvs(c, n, "preserve", extra("(+ "+i+" 1)"), s.Pos())
+	}
+	exit := h.clone()
+	exit.assume(eq(i, ln))
+	exits := append([]*State{exit}, brk...)
+	var outsF []Outcome
+	if m := fc.mergeStates(exits); m != nil {
+		outsF = append(outsF, Outcome{kind: oNormal, st: m})
+	} else {
+		for _, e := range exits {
+			outsF = append(outsF, Outcome{kind: oNormal, st: e})
+		}
+	}
+	return append(outsF, rest...)
 }
